@@ -389,9 +389,10 @@ Lemma valid_event_facts st e : valid_event st e = true -> event_facts st e.
 Proof.
   unfold valid_event, accepts, ev_bounded, fresh_origins, new_ids_fresh.
   rewrite !andb_true_iff, !forallb_forall, N.eqb_eq, N.ltb_lt.
-  intros [[[HA [HW HB]] HFr] HN]. constructor; auto.
+  intros [[[HA [HW HB]] HFr] HN]. constructor.
+  - exact HW.
   - apply Forall_forall. intros i HI. apply N.ltb_lt. apply HB; exact HI.
-  - apply nodupb_NoDup. destruct (nodupb (event_ids e)) eqn:E; auto.
+  - apply nodupb_NoDup. destruct (nodupb (event_ids e)) eqn:E; [reflexivity|].
     assert ((2 : N) = 0) as C; [|discriminate].
     apply (first_err_0 _ HA). unfold check_event. apply in_or_app; right. rewrite E. left; reflexivity.
   - intros c HI. specialize (HN c HI). destruct (lookup st (e_ws e) (c_id c)); [discriminate|reflexivity].
@@ -680,13 +681,14 @@ End Key.
 Section Corollaries.
 Hypothesis Hmask : rec_low_mask = N.ones rec_partition_bits.
 Hypothesis Hbits : rec_partition_bits <= 16.
+Hypothesis Hreload : rec_apply_reloads_origin = true.
 
 Theorem untouched_absent_proved h ws id :
   valid_history [] h = true -> ws < bound64 -> id < bound64 ->
   (forall e c, In e h -> e_ws e = ws -> In c (e_creates e) -> c_id c <> id) ->
   lookup (run [] h) ws id = None.
 Proof.
-  intros V Hw Hi H. rewrite (apply_fold_spec_proved Hmask Hbits h ws id V Hw Hi).
+  intros V Hw Hi H. rewrite (apply_fold_spec_proved Hmask Hbits Hreload h ws id V Hw Hi).
   apply spec_untouched, touches_no_create. intros e c HI. apply H. apply in_rev; exact HI.
 Qed.
 
@@ -697,6 +699,7 @@ End Corollaries.
 Section Link.
 Hypothesis Hmask : rec_low_mask = N.ones rec_partition_bits.
 Hypothesis Hbits : rec_partition_bits <= 16.
+Hypothesis Hreload : rec_apply_reloads_origin = true.
 Hypothesis Hover : rec_reapply_overwrites = true.
 
 Lemma orec_eqb_refl (a : option rec) : option_eqb rec_eqb a a = true.
@@ -715,7 +718,7 @@ Qed.
 
 Lemma valid_in_domain st hr e : spec_ok st hr -> valid_event st e = true -> in_domain hr e = true.
 Proof.
-  intros I V. pose proof (valid_event_facts st e V) as F.
+  intros I V. pose proof (valid_event_facts Hreload st e V) as F.
   unfold in_domain. rewrite !andb_true_iff, !forallb_forall. repeat split.
   - apply NoDup_nodupb. exact (ef_nodup _ _ F).
   - intros c HC. rewrite <- (I (e_ws e) (c_id c)).
@@ -732,14 +735,14 @@ Lemma satisfies_model_trace_from ops qs : forall st last hr,
 Proof.
   induction ops as [|[e|] ops IH]; intros st last hr I B HL V; [reflexivity| |].
   - cbn in V. apply andb_true_iff in V as [V1 V2]. cbn [model_trace].
-    pose proof (valid_event_facts st e V1) as F.
+    pose proof (valid_event_facts Hreload st e V1) as F.
     rewrite (apply_valid Hmask Hbits st e F) in *. cbn [fst snd] in *. cbn [satisfies_from].
     rewrite N.eqb_refl, (valid_in_domain st hr e I V1). cbn [satisfies_from tl].
     assert (spec_ok (put_all st (e_ws e) (ev_items st e)) (e :: hr)) as I'.
-    { pose proof (step_spec Hmask Hbits st hr e I V1) as S. rewrite (apply_valid Hmask Hbits st e F) in S. exact S. }
+    { pose proof (step_spec Hmask Hbits Hreload st hr e I V1) as S. rewrite (apply_valid Hmask Hbits st e F) in S. exact S. }
     rewrite (satisfies_obs_all _ _ _ _ I' B).
     apply IH; auto. intros e' E. inversion E; subst e'.
-    pose proof (reapply_idem_proved Hmask Hbits Hover st e V1) as R.
+    pose proof (reapply_idem_proved Hmask Hbits Hreload Hover st e V1) as R.
     rewrite (apply_valid Hmask Hbits st e F) in R. exact R.
   - cbn in V. destruct last as [e|]; [|discriminate]. cbn [model_trace].
     rewrite (HL e eq_refl) in *. cbn [fst snd] in *. cbn [satisfies_from].
